@@ -483,8 +483,6 @@ def _oracle_op(t, cur, op, res, d):
         cnt = op[2] if k == 21 else op[1]
         W = bool(op[3] if k == 21 else op[2])
         fam = "lands"
-        if k == 23 and cur == n:
-            fam = "cursor-at-end-of-text"
         if cnt < 1:
             return None        # the property quantifies over counts >= 1
         # exactly the count-th word start / word end in the direction of the motion
@@ -498,13 +496,23 @@ def _oracle_op(t, cur, op, res, d):
         else:
             cands = [j for j in range(cur, 0, -1) if is_word_end(t, j, W)]
         want = cands[cnt - 1] - cur if len(cands) >= cnt else None
-        if r != want and not (k == 23 and cur == n and r is not None):
+        if k == 23 and cur == n and r != want:
+            # Known finding C02-F2, and ONLY it: at the end of the text the code answers with the count-th
+            # word end j <= n - 1 (counting backwards) reported as j + 1 - n, None if there are fewer
+            # (theorem C02_previous_word_ending_exact).  Any other wrong answer is an ordinary violation.
+            kc = [j for j in range(n - 1, 0, -1) if is_word_end(t, j, W)]
+            known = kc[cnt - 1] + 1 - n if len(kc) >= cnt else None
+            if r == known:
+                return ("%s(count=%d) with the cursor at the end of the text: answer %r, but the count-th word end "
+                        "before the cursor is at offset %r (off by one / the word ending at the cursor is skipped)"
+                        % (name, cnt, r, want), "cursor-at-end-of-text")
+        if r != want:
             return ("%s(count=%d): answer %r, but the count-th word %s %s the cursor is at offset %r" % (
                 name, cnt, r, "end" if k in (21, 23) else "start", "after" if k in (20, 21) else "before", want),
-                fam if k == 23 else "nth")
+                "nth")
         if r is None:
             return None
-        bad = bounds(r, fam if k == 23 else "bounds")
+        bad = bounds(r, "bounds")
         if bad:
             return bad
         tgt = cur + r
@@ -603,25 +611,35 @@ def _oracle_op(t, cur, op, res, d):
             return bad
         if (k == 27 and v > 0) or (k == 28 and v < 0):
             return ("%s: wrong direction" % name, "lands")
-        # lands: the count-th blank line above/below (the farthest one when there are fewer), or the
-        # line next to it on the cursor's side; the document start/end when there is none
+        # lands, exactly (theorems C02_start/end_of_paragraph_lands + C02_matching_line_is_count_th): the
+        # index of (B, min(cursor column, len of line B)) for B the count-th blank row above/below (the
+        # farthest one when there are fewer), +1 unless before / -1 unless after; the document
+        # start/end when there is no blank row
         tgt = cur + v
-        trow = t.count("\n", 0, tgt)
         blank = lambda l: l.strip() == ""  # noqa
+        start_of = lambda j: sum(len(x) + 1 for x in lines[:j])  # noqa
         if k == 27:
             rows = [j for j in range(row - 1, -1, -1) if blank(lines[j])][:op[1]]
             if not rows:
                 if tgt != 0:
                     return ("start_of_paragraph: no blank line above, target is not the document start", "lands")
-            elif trow not in (rows[-1], rows[-1] + 1):
-                return ("start_of_paragraph: target row %d is not at the blank line %d above" % (trow, rows[-1]), "lands")
+            else:
+                B = rows[-1]
+                exp = start_of(B) + min(col, len(lines[B])) + (0 if op[2] else 1)
+                if tgt != exp:
+                    return ("start_of_paragraph(count=%d, before=%r): target %d, expected %d = (blank row %d, clipped column) %s"
+                            % (op[1], bool(op[2]), tgt, exp, B, "" if op[2] else "+ 1"), "lands")
         else:
             rows = [j for j in range(row + 1, len(lines)) if blank(lines[j])][:op[1]]
             if not rows:
                 if tgt != n:
                     return ("end_of_paragraph: no blank line below, target is not the document end", "lands")
-            elif trow not in (rows[-1] - 1, rows[-1]):
-                return ("end_of_paragraph: target row %d is not at the blank line %d below" % (trow, rows[-1]), "lands")
+            else:
+                B = rows[-1]
+                exp = start_of(B) + min(col, len(lines[B])) - (0 if op[2] else 1)
+                if tgt != exp:
+                    return ("end_of_paragraph(count=%d, after=%r): target %d, expected %d = (blank row %d, clipped column) %s"
+                            % (op[1], bool(op[2]), tgt, exp, B, "" if op[2] else "- 1"), "lands")
         return None
     return None
 
@@ -1078,8 +1096,8 @@ def main(tier):
         % ("4" if chk.tier == "thorough" else "2 (35% stratum of length 3)", ALPHA))
     chk.assumptions += [
         "stdlib re is replaced by hand scanners written for the six pattern strings of document.py (compared with the regenerated strings on every run, Proofs/C02_Patterns.v) and by leftmost non-overlapping literal search for re.finditer(re.escape(sub), ...); tied to re only by this correspondence run",
-        "re.IGNORECASE is modelled as ASCII case folding; ignore_case queries are generated only for texts/needles whose non-ASCII characters are uncased",
-        "the line cache (_text_to_document_cache) is not in the model: the runner evaluates queries on fresh and long-lived Documents of equal text in shuffled order, with documents of other texts alive",
+        "re.IGNORECASE is modelled by the per-character relation regenerated on every run from CPython's re over ASCII letters + the cased non-ASCII letters of gen_t_c02.FOLD_EXTRA (Gen/C02_CaseFold.v); ignore_case queries are generated only for texts/needles whose cased non-ASCII characters lie in that alphabet (theorems hold for any character equivalence)",
+        "the line cache (_text_to_document_cache) is modelled as a memo table with exactly the two fields of _DocumentCache (Model/C02_Cache.v, theorem C02_cache_transparent) and tied by create/lines/indexes/drop operation sequences on real Documents; the query models themselves are cache-free, so additionally the runner evaluates queries on fresh and long-lived Documents of equal text in shuffled order, with documents of other texts alive",
         "cursor positions 0..len(text) (the constructor's assertion for cursor > len is checked; negative cursors are outside the property)",
         "CPython str slicing/split/rstrip/lstrip/partition and bisect_right are re-implemented in coq/Lib/Py.v and Model/Document.v and tied by this correspondence only"]
     return chk.finish()
